@@ -259,6 +259,21 @@ pub fn run(ctx: &mut Ctx) {
             rejected_src = format!("{} {}", over.join(" "), rejected_src);
             extra_probe = Some("kk".to_string());
         }
+        if ctx.rng.chance(8) {
+            // a late-bound word of an EARLIER source is called inside a meta block of the rejected one and fails there (it
+            // reads a variable): the code of the earlier source must come out of it unchanged — a later re-declaration of the
+            // variable is what the word sees
+            ctx.tag("kind:late-in-meta");
+            let k = ctx.rng.range(1, 50);
+            pre.extend(styled(&mut ctx.rng, style, "late LV : LQ LV 10 + ;".to_string()));
+            pre.extend(styled(&mut ctx.rng, style, format!("{} var LV", k)));
+            rejected_src = match ctx.rng.below(3) {
+                0 => format!("5 #( LQ #) 6 {}", rejected_src),
+                1 => format!("#( LQ #)"),
+                _ => format!("{} var LV #( LQ #) {}", k + 100, rejected_src),
+            };
+            extra_probe = Some(format!("{} var LV LQ LV", k + 1));
+        }
         let mut finding_tag = "";
         if ctx.rng.chance(6) {
             // a user-defined immediate word runs while the source is read, in the source's own (not a meta) context: what
